@@ -2,9 +2,9 @@ package sim
 
 import (
 	"fmt"
-	"strings"
 	"runtime"
 	"sort"
+	"strings"
 )
 
 // GenC06 draws one C06 scenario.
